@@ -130,6 +130,23 @@ def type_problem(lib, want, g):
         if le is None:
             return f"{lib!r} is not an iterable of {want[1 if want[0] == 'It' else 2]!r}"
         return type_problem(le, models.elem(want), g)
+    if want[0] == "Rec":
+        # a constructor call: a record with the class's fields (the class itself or the record type built for it)
+        import typing
+
+        cls = g[want[1]]
+        if lib is cls:
+            return None
+        if not dataclasses.is_dataclass(lib):
+            return f"{lib!r} is not a record type for {cls!r}"
+        mine, theirs = typing.get_type_hints(lib), typing.get_type_hints(cls)
+        if set(mine) != set(theirs):
+            return f"fields {sorted(mine)} != {sorted(theirs)}"
+        for k in mine:
+            le, te = models.py_elem(mine[k]), models.py_elem(theirs[k])
+            if (le is None) != (te is None) or (le is None and mine[k] is not theirs[k]) or (le is not None and le != te):
+                return f"field {k}: {mine[k]!r} != {theirs[k]!r}"
+        return None
     if want[0] == "Dic":
         if not dataclasses.is_dataclass(lib):
             return f"{lib!r} is not a record type for {want!r}"
@@ -183,6 +200,16 @@ class C08(Check):
             if mname == "plain":
                 out.append(Space("plain: every arithmetic operator", {"operators": "+ - * / // %", "body_size": 4 if Q else 5},
                                  (lambda Q=Q: self._arith(4 if Q else 5)), runner="run_chain"))
+            if mname == "plain":
+                out.append(Space("plain: parameters named like registered functions",
+                                 {"names": "abs, len (built in) and a func_adl_callable function; at lambda depth 1 and 2",
+                                  "body_size": 4 if Q else 5},
+                                 (lambda Q=Q: self._fnames(4 if Q else 5)), runner="run_chain"))
+            if mname == "dataclass":
+                out.append(Space("dataclass: constructor calls in queries",
+                                 {"shape": "Info(...) with every split into positional / keyword arguments and every order "
+                                  "of the keywords, then field access in the same lambda or in the next operator"},
+                                 self._ctors, runner="run_chain"))
             k = 3 if Q else 4
             out.append(Space(f"{mname}: chains K<=3 bodies<={k}", {"model": mname, "body_size": k, "stages": "2..3"},
                              (lambda mname=mname, k=k: self._chains(mname, k, 3 if not Q else 2)), runner="run_chain"))
@@ -207,6 +234,37 @@ class C08(Check):
             for t, src in gen.gen((("e", ("Obj", "Ev")),), size):
                 if any(o in src for o in (" - ", " // ", " % ")):
                     out.append(("plain", (("Select", src),)))
+        return out
+
+    def _fnames(self, n):
+        g, d = models.load("plain")
+        gen = Gen(d, ("const",))
+        out = []
+        for size in range(2, n + 1):
+            for t, src in gen.gen((("e", ("Obj", "Ev")),), size):
+                for ren in ((("e", "abs"),), (("e", "len"),), (("e", "fn"),), (("j", "abs"),), (("j", "fn"),),
+                            (("e", "len"), ("j", "abs"))):
+                    if any(o == "j" for o, _ in ren) and "lambda j" not in src:
+                        continue
+                    for op in self._ops_for(t):
+                        out.append(("plain", ((op, src, ren),)))
+        return out
+
+    def _ctors(self):
+        import itertools
+
+        vals = {"x": ("e.a()", "float"), "k": ("e.n()", "int"), "js": ("e.jets()", ("It", ("Obj", "Jet")))}
+        order = ("x", "k", "js")
+        out = []
+        for npos in range(0, 4):
+            pos = [vals[f][0] for f in order[:npos]]
+            for perm in itertools.permutations(order[npos:]):
+                call = "Info(" + ", ".join(pos + [f"{f}={vals[f][0]}" for f in perm]) + ")"
+                for f in order:
+                    out.append(("dataclass", (("Select", f"{call}.{f}", (), vals[f][1]),)))
+                    out.append(("dataclass", (("Select", call, (), ("Rec", "Info")), ("Select", f"e.{f}", (), vals[f][1]))))
+                out.append(("dataclass", (("Select", f"{call}.js.Select(lambda j: j.pt())", (), ("It", "float")),)))
+                out.append(("dataclass", (("Where", f"({call}.x > {call}.k)", (), "bool"),)))
         return out
 
     def _combos(self, mname, n):
@@ -284,13 +342,25 @@ class C08(Check):
         canon = repr(payload)
         s = DS(g[d["root"]])
         item = ("Obj", d["root"])
-        for i, (op, body) in enumerate(stages):
-            # the body's type by construction: re-derive it from the generator (exact source match)
-            t = self._type_of(gen, item, body)
+        for i, stage in enumerate(stages):
+            op, body = stage[:2]
+            ren = stage[2] if len(stage) > 2 else ()
+            # the body's type by construction: re-derive it from the generator (exact source match);
+            # the constructor space states it (a constructor call has the type of its class)
+            t = stage[3] if len(stage) > 3 else self._type_of(gen, item, body)
             lam = f"lambda e: {body}"
+            if ren:
+                lam = self._rename(lam, dict(ren))
+                if "fn" in dict(ren).values():
+                    from func_adl import func_adl_callable
+
+                    def fn(x: float) -> float: ...
+
+                    func_adl_callable()(fn)
             want_err = op == "Where" and t not in ("bool", "Any")
+            real = "Info(" in repr(stages)
             try:
-                s2 = getattr(s, op)(lam)
+                s2 = self._apply_real(g, s, op, lam) if real else getattr(s, op)(lam)
             except ValueError as e:
                 if want_err or (op == "Where" and t == "Any"):
                     res["oc"].append("refused-nonbool-where")
@@ -349,6 +419,36 @@ class C08(Check):
             return ("Dic", (("k", part_type(tree.values[0])), ("l", part_type(tree.values[1]))))
         op = "/" if isinstance(tree.op, _ast.Div) else "+"
         return promote(part_type(tree.left), part_type(tree.right), op)
+
+    _nfile = [0]
+
+    def _apply_real(self, g, s, op, lam):
+        """the lambda as a real Python lambda written in the model's module (so the class names in it resolve the
+        way they do in a user's module), source available through linecache"""
+        import linecache
+
+        self._nfile[0] += 1
+        fn = f"<fadlmc-c08-{self._nfile[0]}>"
+        text = f"def build(s):\n    return s.{op}(\n        {lam}\n    )\n"
+        linecache.cache[fn] = (len(text), None, text.splitlines(True), fn)
+        try:
+            exec(compile(text, fn, "exec"), g)
+            return g["build"](s)
+        finally:
+            linecache.cache.pop(fn, None)
+
+    @staticmethod
+    def _rename(src, mapping):
+        "rename lambda parameters (and their uses) by the given map - no two binders share a name in these bodies"
+        import ast as _ast
+
+        tree = _ast.parse(src, mode="eval")
+        for n in _ast.walk(tree):
+            if isinstance(n, _ast.arg) and n.arg in mapping:
+                n.arg = mapping[n.arg]
+            elif isinstance(n, _ast.Name) and n.id in mapping:
+                n.id = mapping[n.id]
+        return _ast.unparse(tree)
 
     @staticmethod
     def _canonical(src):
